@@ -318,6 +318,23 @@ def check(ctx):
                         if y not in seen and y != nr.bb:
                             seen.add(y)
                             dq.append(y)
+        # ... and unconditionally: what runs only because force is set cannot leave the function (no `?`, no return): a forced run must regenerate
+        # from *every* cache state — no record, a corrupt one, one from another version — so nothing on that branch may fail on such a state
+        for (a, lab, (o, outcome)) in f.branch_edges():
+            if outcome == "true" and o[0] == "call" and short_path(o[1].best) == "GenerateConfig::should_force":
+                for b in sorted(f.edge_region(a, lab) & f.reach_blocks):
+                    if f.blocks[b]["term"]["k"] == "return":
+                        r3.bad(V(r3.id, f.id, "force-path-conditional:return", "the branch taken only when force is set can return before generation"))
+                    cc = f.call_at(b)
+                    if cc is None:
+                        continue
+                    why_ = None
+                    if strip_generics(cc.path) in ("std::ops::Try::branch", "std::ops::FromResidual::from_residual"):
+                        why_ = "fallible-step"
+                    elif cc.path.startswith("tauri_typegen::build::generation_cache::") or cc.path.startswith("std::fs::"):
+                        r3.notes.append("forced branch calls %s (infallible use is harmless)" % short_path(cc.best))
+                    if why_:
+                        r3.bad(V(r3.id, f.id, "force-path-conditional:%s" % why_, "the branch taken only when force is set contains a %s that can end the run before generation: whether the forced run regenerates then depends on the state it meets" % why_, cc.file, cc.line))
         if ok_force:
             r3.ok("%s: should_force()=true reaches generate_models without consulting the cache" % short_path(f.id))
         else:
@@ -427,6 +444,41 @@ def check(ctx):
                 tb = f.describe_origin(f.origin(b), short=False, deep=3)
                 if re.sub(r"\.deref|deref\(|\)", "", ta) != re.sub(r"\.deref|deref\(|\)", "", tb):
                     bad.append("%s:differs" % what)
+            # ... and they are still the same values: between the check and the construction of the record nothing borrows them mutably or stores
+            # into them (sorting / deduplicating / extending the command list after the check makes the saved digest differ from the next check's)
+            def root_(o):
+                from mirlib import TRANSPARENT, strip_generics_
+                while True:
+                    if o[0] == "proj":
+                        o = o[1]
+                    elif o[0] == "call" and o[1].args and TRANSPARENT.get(strip_generics_(o[1].path)) in ("try", "deref", "asref"):
+                        o = o[1].fn.origin(o[1].args[0])
+                    else:
+                        return o
+
+            def same_root(x, y):
+                return (x[0] == "call" and y[0] == "call" and x[1] is y[1]) or (x[0] == "arg" and y[0] == "arg" and x[1] == y[1])
+            after_check = blocks_reachable_from(f, checks[0].bb)
+            for what in ("commands", "structs", "events", "config"):
+                a = arg_by_type(checks[0], ARG_TYPES[what])
+                b = arg_by_type(cn, ARG_TYPES[what])
+                if a is None or b is None:
+                    continue
+                ra = root_(f.origin(a))
+                if ra[0] not in ("call", "arg"):
+                    continue
+                for bb in sorted(after_check):
+                    if bb not in f.reach_blocks or not (cn.bb == bb or cn.bb in blocks_reachable_from(f, bb)):
+                        continue
+                    for st in f.blocks[bb]["stmts"]:
+                        rv = st.get("rv")
+                        if not rv:
+                            continue
+                        if rv["k"] == "ref" and rv.get("mut") and same_root(root_(f.origin({"copy": {"l": rv["place"]["l"], "p": []}})), ra):
+                            bad.append("%s:mutably-borrowed-after-check" % what)
+                        elif st["lhs"].get("p") and any(pj.get("k") == "field" for pj in st["lhs"]["p"]) and same_root(root_(f.origin({"copy": {"l": st["lhs"]["l"], "p": []}})), ra):
+                            bad.append("%s:stored-into-after-check" % what)
+            bad = sorted(set(bad))
             if bad:
                 r4.bad(V(r4.id, fid, "record-inputs:%s" % ",".join(bad), "the saved record and the cache check do not receive the same values (%s)" % ", ".join(bad), cn.file, cn.line))
             else:
